@@ -522,6 +522,8 @@ def gen_scenario(rng, est, nmax=64, min_ch=1, max_ch=5, lead=None, layout=None):
     if est in ("multi_taper_psd", "multi_taper_csd"):
         if nfft is not None:
             nfft = rng.choice([n, n + rng.randint(1, 9), n - 2])      # NFFT < N is reset to N by the code
+    if est in ("periodogram", "periodogram_csd") and rng.random() < 0.15:
+        nfft = rng.choice([n - 1, n - 3, n // 2, n // 2 + 1])          # truncating transform (NFFT < N)
     if est in ("periodogram_csd", "multi_taper_csd") and not lead:
         lead = [1]
     sc = {"est": est, "Fs": None if fs is None else float(fs).hex(), "NFFT": nfft, "sides": sides}
@@ -577,7 +579,7 @@ def force_bw_nfft(rng, sc):
     sc.pop("NW", None)
     m = rng.randint(3, max(3, min(6, n // 3)))
     sc["BW"] = float((m + rng.uniform(-0.3, 0.3)) * fs_of(sc) / n).hex()
-    sc["NFFT"] = rng.choice([None, n, n + n // 2, 2 * n, 2 * n + 1, n + n // 2])
+    sc["NFFT"] = rng.choice([None, n, n + n // 2, n + n // 2, n + n // 3, n + n // 2 + 1, 2 * n])
     return sc
 
 
@@ -589,7 +591,8 @@ def gen_parity_matrix(rng, est, n_even, n_odd, M=2, per_cell=1):
     out = []
     i = 0
     for n in (n_even, n_odd):
-        for nf in (None, n, n + 1, n + 2, 2 * n, 2 * n + 1):
+        short = [] if est.startswith("multi_taper") else [n // 2, n - 3, n - 1]     # NFFT < N: the FFT truncates
+        for nf in [None, n, n + 1, n + 2, 2 * n, 2 * n + 1] + short:
             for _ in range(per_cell):
                 lead = [M] if (est.endswith("_csd") or M > 1) else []
                 sc = gen_scenario(rng, est, nmax=max(n, 17), max_ch=M, lead=lead, layout="C")
@@ -609,7 +612,8 @@ def gen_parity_matrix(rng, est, n_even, n_odd, M=2, per_cell=1):
                     for k in ("NW", "BW", "adaptive", "low_bias", "jackknife"):
                         sc.pop(k, None)
                 sc["parity_cell"] = "N%s/NFFT%s" % ("even" if n % 2 == 0 else "odd",
-                                                   "none" if nf is None else ("even" if nf % 2 == 0 else "odd"))
+                                                   "none" if nf is None else (("even" if nf % 2 == 0 else "odd")
+                                                                              + ("<N" if nf < n else "")))
                 out.append(sc)
                 i += 1
     return out
